@@ -2,6 +2,7 @@
    pre-assigned participants is part of the CdE reader model, see C12). *)
 From Coq Require Import List ZArith Lia Bool Arith.
 Require Import Cert HP1 Cao1 Cao3 Score1 Rooms Spec Valid Node NodeThms Solve Quality.
+Require Json CdeSpec CdeQuality.
 Require EngP2.
 Import ListNotations.
 Open Scope nat_scope.
@@ -34,8 +35,34 @@ Theorem C08_max : forall courses parts K a, Valid courses parts -> HardOK_K cour
   (score_of courses parts a <= theo_max courses parts)%Z.
 Proof. intros courses parts K a V H. apply (score_le_theo_max courses parts a V). intros p c Hp Ha. apply (h_rng _ _ _ _ H p c Hp Ha). Qed.
 
-Check C08_score_node. Check C08_score. Check C08_quality. Check C08_max.
+(* external rating (--ignore-assigned): an ignored pre-assigned participant is rated by the position of his assigned course in his
+   ORIGINAL choice list -- choices of skipped (cancelled / not offered) courses count -- and by num_choices + 1 if he did not choose it.
+   first_rank is the least such position (C08_first_rank).  The quality record of the reader specification (= transcription, C12_refinement)
+   lists exactly these penalties for the ignored registrations that do not instruct their assigned course. *)
+Theorem C08_external_rank : forall cmap l res ci td, Json.pcd_choices cmap l 0 = Json.ROk res ->
+  Json.assigned_penalty ci res td = match CdeQuality.first_rank cmap l ci 0 with Some r => r | None => Json.unchosen_penalty td end.
+Proof. exact CdeQuality.assigned_penalty_rank. Qed.
+Theorem C08_first_rank : forall cmap ci l,
+  match CdeQuality.first_rank cmap l ci 0 with
+  | Some r => (exists v, nth_error l r = Some v /\ CdeQuality.maps_to cmap v ci = true) /\
+              forall j v, j < r -> nth_error l j = Some v -> CdeQuality.maps_to cmap v ci = false
+  | None => forall v, In v l -> CdeQuality.maps_to cmap v ci = false
+  end.
+Proof.
+  intros cmap ci l. pose proof (CdeQuality.first_rank_spec cmap ci l 0) as H. destruct (CdeQuality.first_rank cmap l ci 0) as [r|]; [|exact H].
+  destruct H as (_ & H1 & H2). rewrite Nat.sub_0_r in H1, H2. split; assumption.
+Qed.
+Theorem C08_external_list : forall ign_a td rviews,
+  snd (CdeSpec.spec_quality ign_a td rviews) =
+  map (fun r => match Json.pc_assigned (CdeSpec.rv_pcd r) with Some ci => Json.assigned_penalty ci (Json.pc_choices (CdeSpec.rv_pcd r)) td | None => 0 end)
+      (filter (fun r => negb (CdeSpec.same_course r)) (filter (CdeSpec.ignored ign_a) rviews)).
+Proof. exact CdeQuality.spec_quality_penalties. Qed.
+
+Check C08_external_rank. Check C08_first_rank. Check C08_external_list. Check C08_score_node. Check C08_score. Check C08_quality. Check C08_max.
 Print Assumptions C08_score_node.
 Print Assumptions C08_score.
 Print Assumptions C08_quality.
 Print Assumptions C08_max.
+Print Assumptions C08_external_rank.
+Print Assumptions C08_first_rank.
+Print Assumptions C08_external_list.
